@@ -273,8 +273,10 @@ def classify(ctx, f, node):
         return "dual-arms", _dual_arms(amin, amax, f), U(par)[:90]
     if isinstance(par, ast.BinOp):
         # 1 - 2 * (mode == "min") and relatives: find the enclosing arithmetic expression
+        # (the largest one that is still a function of the mode alone: the factor may be written inside a product with metric values)
         top = par
-        while isinstance(getattr(top, "_parent", None), (ast.BinOp, ast.UnaryOp)):
+        while isinstance(getattr(top, "_parent", None), (ast.BinOp, ast.UnaryOp)) and \
+                parity.fold_mode(top._parent, "min", FLAGS) is not None and parity.fold_mode(top._parent, "max", FLAGS) is not None:
             top = top._parent
         k = parity.is_sign(top, FLAGS)
         return "SIGN", k is not None, f"{U(top)}" + (f" (= {k} for min)" if k is not None else " does not fold to k / -k")
@@ -376,6 +378,18 @@ def run(ctx, rep, tier="quick"):
             while st is not None and not isinstance(st, ast.stmt):
                 st = getattr(st, "_parent", None)
             tgt = None
+            # not stored at all: the factor stands inside the product it signs
+            top = getattr(node, "_parent", None)
+            while isinstance(getattr(top, "_parent", None), (ast.BinOp, ast.UnaryOp)) and \
+                    parity.fold_mode(top._parent, "min", FLAGS) is not None and parity.fold_mode(top._parent, "max", FLAGS) is not None:
+                top = top._parent
+            tp = getattr(top, "_parent", None)
+            if isinstance(top, (ast.BinOp, ast.UnaryOp)) and isinstance(tp, ast.BinOp) and isinstance(tp.op, ast.Mult) and parity.is_sign(top, FLAGS) is not None:
+                other = tp.right if tp.left is top else tp.left
+                n_sign += 1
+                rep.put(not _may_be_sentinel(f, other), "S2", "parity", f"{construct}: the inline SIGN factor multiplies a metric-valued expression", f, tp,
+                        U(tp)[:80], f"`{U(tp)[:80]}`: the other factor can be a fixed sentinel, which does not flip with the metrics")
+                continue
             if isinstance(st, ast.Assign):
                 tgt = U(st.targets[0])
             elif isinstance(st, ast.If):
